@@ -254,6 +254,20 @@ def m_late_parent_event(f, case, viol):
     return all(any(_related(_unconf(p), q) for q in parents) for p in paths)
 
 
+def m_request_stale_entry(f, case, viol):
+    """mechanism (C20): a remote file P is deleted and re-created, and the application requests P by path before the engine has
+    taken in the re-creation event: the request is attached to the entry of the deleted file, the new file arrives as a
+    different entry that is not in the request set and is never downloaded.  The differing path must be such a P."""
+    ops = user_ops(case)
+    cand = set()
+    for i, u in enumerate(ops):
+        if u[1] == 1 and u[2] == "delete" and any(v[1] == 1 and v[2] == "create" and v[3] == u[3] for v in ops[i + 1:]):
+            cand.add(u[3])
+    req = set(it[2] for it in case.get("plan", []) if it and it[0] == "X" and it[1] in ("sync_path", "sync_oid"))
+    paths = _diff_paths(viol)
+    return bool(paths) and all(p in cand and p in req for p in paths)
+
+
 def _abs_moves(case, kinds):
     """user moves addressed by account paths that cross a sync-root boundary: [(plan index, side, op, inside rel path, outside path, direction)]"""
     roots = tuple(case.get("cfg", {}).get("roots", ("/local", "/remote")))
@@ -313,7 +327,7 @@ def m_moved_out_race(f, case, viol):
     return _paths_related_to_moves(viol, ok)
 
 
-MATCHERS = {"late_parent_event": m_late_parent_event, "crash_dup_entry": m_crash_dup_entry, "boundary_folder_move": m_boundary_folder_move, "moved_out_race": m_moved_out_race, "crash_rename_over": m_crash_rename_over, "event_exc": m_event_exc, "half_transfer": m_half_transfer, "history": m_history, "rename_race": m_rename_race, "dirdelete_race": m_dirdelete_race}
+MATCHERS = {"request_stale_entry": m_request_stale_entry, "late_parent_event": m_late_parent_event, "crash_dup_entry": m_crash_dup_entry, "boundary_folder_move": m_boundary_folder_move, "moved_out_race": m_moved_out_race, "crash_rename_over": m_crash_rename_over, "event_exc": m_event_exc, "half_transfer": m_half_transfer, "history": m_history, "rename_race": m_rename_race, "dirdelete_race": m_dirdelete_race}
 
 
 def match_one(f, case, viol):
